@@ -18,41 +18,54 @@ Proof.
 Qed.
 Print Assumptions C09_all_members_guarded.
 
-(* Over the lifetime of one device object the listener receives at most one
-   connection_lost/connection_closed. *)
+(* Over the lifetime of one device object the user's listener objects - however often the
+   listener is assigned again, to the same or to another object - receive at most one
+   connection_lost/connection_closed in total. *)
 Theorem C09_at_most_one_notification :
   forall c h, length (notifs (trace c init h)) <= 1.
 Proof.
-  intros c h. rewrite (notifs_open c h init init_open). unfold expected.
-  destruct (lst c); [simpl; lia | rewrite firstn_length; lia | simpl; lia].
+  intros c h. rewrite (notifs_open c h init init_open). unfold expected, heard.
+  destruct (reported (count_dm (protos c)) false (lstn init) h) as [|[k l] t]; [simpl; lia|].
+  destruct l; simpl; lia.
 Qed.
 Print Assumptions C09_at_most_one_notification.
 
-(* ... and it is the first one reported (Spec.reported lists the reports in the order in
-   which they are made, including those a DMAP-like protocol makes when it is closed);
-   nothing is delivered when no live listener is registered. *)
+(* ... and it is the first one reported, heard by the listener that is alive at that moment
+   (Spec.reported lists the reports in the order in which they are made, including those a
+   DMAP-like protocol makes when it is closed, each with the state of the listener then);
+   if no listener is alive then, nothing is ever delivered - a listener assigned later does
+   not re-arm the notification. *)
 Theorem C09_first_reported_wins :
   forall c h,
-    notifs (trace c init h) =
-      match lst c with
-      | LLive => firstn 1 (reported (count_dm (protos c)) false h)
-      | _ => []
-      end.
+    notifs (trace c init h) = heard (reported (count_dm (protos c)) false LNone h).
 Proof. intros c h. exact (notifs_open c h init init_open). Qed.
 Print Assumptions C09_first_reported_wins.
 
-(* readable special case: whatever came before was no report and no close, then protocol i
-   reports lost(e): the listener gets exactly that, no matter what follows *)
+(* readable special case: a live listener is assigned, nothing that reports or closes or
+   re-assigns happens, then protocol i reports lost(e): the listener gets exactly that, no
+   matter what came before the assignment (if it was no report and no close) or what follows -
+   further reports, a new listener, another close *)
 Theorem C09_first_lost_is_delivered :
-  forall c pre i e post,
-    lst c = LLive -> forallb (fun x => negb (is_closing x)) pre = true ->
-    notifs (trace c init (pre ++ Lost i e :: post)) = [NLost i e].
+  forall c pre0 pre i e post,
+    forallb (fun x => negb (is_closing x)) pre0 = true ->
+    forallb (fun x => negb (is_closing x) && negb (is_setl x)) pre = true ->
+    notifs (trace c init (pre0 ++ SetListener LLive :: pre ++ Lost i e :: post)) = [NLost i e].
 Proof.
-  intros c pre i e post L Q. rewrite C09_first_reported_wins, L.
-  induction pre as [|x pre IH]; [reflexivity|].
-  simpl in Q. apply andb_true_iff in Q as [Q1 Q2]. destruct x; try discriminate; simpl; now apply IH.
+  intros c pre0 pre i e post Q0 Q. rewrite C09_first_reported_wins.
+  generalize LNone as l.
+  induction pre0 as [|x pre0 IH0]; intro l.
+  - simpl. induction pre as [|x pre IH]; [reflexivity|].
+    simpl in Q. apply andb_true_iff in Q as [Q1 Q2]. destruct x; try discriminate; simpl; now apply IH.
+  - simpl in Q0. apply andb_true_iff in Q0 as [Q1 Q2]. destruct x; try discriminate; simpl; now apply IH0.
 Qed.
 Print Assumptions C09_first_lost_is_delivered.
+
+(* re-assigning the listener after the notification was delivered does not re-arm it *)
+Theorem C09_reassigned_listener_hears_nothing_more :
+  forall c i e l post,
+    notifs (trace c init (SetListener LLive :: Lost i e :: SetListener l :: post)) = [NLost i e].
+Proof. intros. rewrite C09_first_reported_wins. reflexivity. Qed.
+Print Assumptions C09_reassigned_listener_hears_nothing_more.
 
 (* After the user closes, or after ANY protocol reports lost or closed (x), the device
    object is blocked for good: the rest of the run (post) is the run from a blocked state in
@@ -134,21 +147,21 @@ Print Assumptions C09_push_listener_silent_after_close.
 (* ---- non-vacuity: concrete, non-trivial instances -------------------------------------- *)
 
 Definition ex_cfg : cfg :=
-  {| protos := [ {| dmaplike := false; ntasks := 2 |}; {| dmaplike := true; ntasks := 0 |} ]; lst := LLive; mainp := 0 |}.
+  {| protos := [ {| dmaplike := false; ntasks := 2 |}; {| dmaplike := true; ntasks := 0 |} ]; mainp := 0 |}.
 
 Example C09_ex_trace :
-  trace ex_cfg init [PushStart; Lost 1 0; Closed 0; UserClose; PushStart] =
+  trace ex_cfg init [SetListener LLive; PushStart; Lost 1 0; SetListener LLive; Closed 0; UserClose; PushStart] =
     [UpdStart 0; UpdStart 1; UpdStop 0; UpdStop 1; SessClose; ProtoClose 0; ProtoClose 1; Notify (NLost 1 0)].
 Proof. vm_compute. reflexivity. Qed.
 
 Example C09_ex_user_close_first :
-  notifs (trace ex_cfg init [UserClose; Lost 0 1]) = [NClosed] /\
+  notifs (trace ex_cfg init [SetListener LLive; UserClose; Lost 0 1]) = [NClosed] /\
   map snd (run ex_cfg init [UserClose; Lost 0 1; UserClose]) =
     [RTasks [TSess; TProto 0 0; TProto 0 1]; RNone; RTasks [TSess; TProto 0 0; TProto 0 1]].
 Proof. split; vm_compute; reflexivity. Qed.
 
 Example C09_ex_error_path :
-  trace ex_cfg init [PushStart; PostErr 0; PostPlay 1; PostPlay 0; RunLoop; PostErr 0; Lost 0 0; RunLoop; PostErr 0; RunLoop] =
+  trace ex_cfg init [SetListener LLive; PushStart; PostErr 0; PostPlay 1; PostPlay 0; RunLoop; PostErr 0; Lost 0 0; RunLoop; PostErr 0; RunLoop] =
     [UpdStart 0; UpdStart 1; PushGot true 0; PushGot false 0;
      UpdStop 0; UpdStop 1; SessClose; ProtoClose 0; ProtoClose 1; Notify (NLost 0 0)].
 Proof. vm_compute. reflexivity. Qed.
